@@ -193,23 +193,24 @@ type Machine struct {
 	Budget  int64
 	Events  []Event
 	// statistics for non-triviality rules
-	Cuts          int // cuts that discarded ≥1 choice point
-	CutDiscarded  int
-	ClauseRetries int // backtracks into an untried clause alternative
-	Throws        int
-	ThrowCrossed  int  // catch frames crossed or matched by throws
-	Hinged        bool // a result depended on the order of distinct unbound variables
-	OpenUpdates   int  // database updates executed while a call/retract on the same predicate was open
-	Groups        int  // bagof/setof groups produced
-	catchSeq      int
-	started       bool
-	failed        bool
-	Err           *T // uncaught ball
-	Exhausted     bool
-	OutOfBudget   bool
-	openCalls     map[string]int
-	walked        int64
-	Unsupported   string // set when the program used something the reference does not model
+	Cuts                 int // cuts that discarded ≥1 choice point
+	CutDiscarded         int
+	ClauseRetries        int // backtracks into an untried clause alternative
+	Throws               int
+	ThrowCrossed         int  // catch frames crossed or matched by throws
+	Hinged               bool // a result depended on the order of distinct unbound variables
+	GroupOrderObservable bool // a bagof/setof call with >=2 groups ran inside another all-solutions call
+	OpenUpdates          int  // database updates executed while a call/retract on the same predicate was open
+	Groups               int  // bagof/setof groups produced
+	catchSeq             int
+	started              bool
+	failed               bool
+	Err                  *T // uncaught ball
+	Exhausted            bool
+	OutOfBudget          bool
+	openCalls            map[string]int
+	walked               int64
+	Unsupported          string // set when the program used something the reference does not model
 }
 
 // New creates a machine for a query over db. Variables of the query must have ids < firstFree.
